@@ -111,7 +111,18 @@ func H11_paste() {
 	if focus != 0 {
 		exp++
 	}
-	vsymAssert(len(evs) == exp, "paste-start, one event per character, paste-end (and the focus report)")
+	hasRepl := false
+	for _, r := range want {
+		if r == 0xFFFD {
+			hasRepl = true
+		}
+	}
+	if hasRepl {
+		// the same recorded finding as in H11_utf8: a validly encoded U+FFFD is dropped
+		vsymAssert(len(evs) == exp, "paste-start, one event per character, paste-end [pasted text containing U+FFFD]")
+	} else {
+		vsymAssert(len(evs) == exp, "paste-start, one event per character, paste-end (and the focus report)")
+	}
 	if len(evs) != exp {
 		return
 	}
